@@ -68,11 +68,14 @@ package roaring
 
 //@ contract (*Bitmap).UnmarshalBinary$dyn1 trusted pure props C06
 //@   ensures result == 1 || result == 2 || result == 3
-//@ contract readOffsets trusted props C06
-//@   requires b != nil
+//@ contract readOffsets props C06
+//@   requires b != nil && b.Containers != nil && 0 <= pos && pos <= len(data) && len(data) <= 4294967295
+//@   loop 1 invariant 0 <= i && buf.ref == data.ref && buf.off == data.off + pos + 4 * i && len(buf) == len(data) - pos - 4 * i && 0 <= len(buf) && citer != nil
 //@   modifies sliceContainers.*, bTreeContainers.*, tree.*, Container.*, sliceIterator.*, btcIterator.*, enumerator.*
-//@ contract readWithRuns trusted props C06
-//@   requires b != nil
+//@ contract readWithRuns props C06
+//@   requires b != nil && b.Containers != nil && 0 <= pos && pos <= len(data) && len(data) <= 4294967295 && keyN <= 65536
+//@   loop 1 invariant 0 <= i && 0 <= pos && pos <= len(data) && citer != nil && unchanged(data)
+//@   loop 2 invariant 0 <= $i + 1 && $i + 1 <= len(runs)
 //@   modifies sliceContainers.*, bTreeContainers.*, tree.*, Container.*, sliceIterator.*, btcIterator.*, enumerator.*, elemtype interval16
 
 // ---- stored bitmap data -------------------------------------------------------------
